@@ -24,6 +24,7 @@ class C05(Monitor):
         cr = self.credit[ep]
         if s.kind == 'call' and s.op == 'increment_flow_control_window' and s.ok:
             self.manual[ep] = True          # manual increments move the maximum: outside this property
+        added = 0       # credit that arose during this very step: an update emitted in between need not cover it
         if s.kind == 'recv':
             for i, f in enumerate(s.units):
                 if f.type == C.DATA and not f.bad and not s.snap['closed']:
@@ -31,6 +32,7 @@ class C05(Monitor):
                     if pre is None or pre.state not in ('open', 'hcL') or s.rejected[i]:
                         # DATA on a closed / non-receivable stream: acknowledged on the user's behalf
                         cr[0] = cr.get(0, 0) + f.fc_len
+                        added += f.fc_len
                         self.closed_data[ep] += f.fc_len
                         if f.fc_len:
                             self.probe('data_on_closed_stream')
@@ -68,7 +70,7 @@ class C05(Monitor):
                 at_max = st is None or st.recv_win >= trk.mine[C.S_INITIAL_WINDOW_SIZE] or bool(trk.sent_settings)
             if at_max:
                 cr[f.sid] = 0
-            elif cr[f.sid] > 0 and inc <= have:
+            elif cr[f.sid] > 0 and inc < have - (added if f.sid == 0 else 0):
                 self.fail('under-credit', 'WINDOW_UPDATE hands back less than was acknowledged although the window stays below its maximum', s,
                           sid=f.sid, inc=inc, acknowledged=have)
         # nothing is owed while a window is at its maximum (the library drops such credit)
